@@ -215,8 +215,8 @@ func initNumeric(param string) {
 		0x7fe0000000000000, 0x7feffffffffffff0, 0x7fefffffffffffff, // up to MaxFloat64
 	}
 	if param != "thorough" {
-		bits = []uint64{0x0, 0x1, 0xf, 0x10, 0xff, 0x100, 0xffffffff, 0x100000000, 0x000fffffffffffff, 0x0010000000000000,
-			0x3fefffffffffffff, 0x3ff0000000000000, 0x3ff0000000000001, 0x402fffffffffffff, 0x4030000000000000, 0x7fefffffffffffff}
+		bits = []uint64{0x0, 0x1, 0xf, 0x10, 0xffffffff, 0x100000000, 0x000fffffffffffff, 0x0010000000000000,
+			0x3fefffffffffffff, 0x3ff0000000000000, 0x3ff0000000000001, 0x7fefffffffffffff}
 	}
 	numVals = nil
 	for i := len(bits) - 1; i >= 1; i-- { // negative values, ascending; -0.0 is left out (see assumptions)
@@ -287,8 +287,8 @@ func initDates(param string) {
 	}
 	if param != "thorough" {
 		dateVals = []int64{
-			math.MinInt64, math.MinInt64 + 1, negInf - 1, negInf, negInf + 1, -1 << 62, -256, -16, -1, 0, 1, 15, 16, 256,
-			1600000000000000000, 1 << 62, posInf - 1, posInf, posInf + 1, math.MaxInt64 - 1, math.MaxInt64,
+			math.MinInt64, math.MinInt64 + 1, negInf - 1, negInf, negInf + 1, -16, -1, 0, 1, 15, 16,
+			1600000000000000000, posInf - 1, posInf, posInf + 1, math.MaxInt64 - 1, math.MaxInt64,
 		}
 	}
 	dateCorpus = mkVCorpus("date", len(dateVals), func(id string, v int) *bluge.Document {
@@ -423,7 +423,7 @@ func initGeo(param string) {
 	lons := []float64{-180, -150, -90, -30, 30, 150, 180}
 	lats := []float64{-90, -75, -15, 45, 75, 90}
 	if param != "thorough" {
-		lons = []float64{-180, -30, 150, 180}
+		lons = []float64{-180, -30, 150}
 		lats = []float64{-90, -15, 45, 90}
 	}
 	for _, a := range lons {
